@@ -27,6 +27,9 @@ def rand_cfg(rng: random.Random, **over) -> Cfg:
         hdr = 4 + 2 * max(c.src_idw, c.dst_idw) + c.seqw
         c.max_packet = hdr + 4 + (2 if c.crc else 0) + rng.choice([1, 2, 4])
         c.max_packet = max(c.max_packet, hdr + 1 + 8 + 8 + (2 if c.crc else 0))
+    # the receiver's configuration for this sender need not mirror the sender's configuration for the receiver
+    if rng.random() < 0.35:
+        c.dst_over = {"ack_ms": rng.choice([250, 500, 1000, 2000, 4000]), "nak_ms": rng.choice([250, 500, 1000, 2000])}
     for k, v in over.items():
         setattr(c, k, v)
     return c
